@@ -817,9 +817,8 @@ def cte_reference_route(ctx):
         def add_step(step):
             added.append(step)
             return step
-        self_ = Obj('QueryPlanner', projects=['mindsdb', 'proj'], databases=['int1', 'int2', 'mindsdb', 'proj'], integrations={'int1': {}, 'int2': {}},
-                    default_namespace=ns, cte_results={'a': Obj('Step', result=Obj('Result'))}, plan=Obj('QueryPlan', steps=[], add_step=add_step),
-                    predictor_info={}, query=Obj('Select', _outer=True))
+        self_ = real_planner(ctx, ['int1', 'int2', {'name': 'proj', 'type': 'project'}], [], default_namespace=ns,
+                             cte_results={'a': Obj('Step', result=Obj('Result'))}, plan=Obj('QueryPlan', steps=[], add_step=add_step), query=Obj('Select', _outer=True))
         stubs = {'query_traversal': traverse, 'utils.query_traversal': traverse, 'self.is_predictor': lambda it, n: False, 'self.get_predictor': lambda it, n: None,
                  'Identifier': lambda it, *a, **k: Obj('Identifier', parts=list(k.get('parts') or (a[0] if a else [])), alias=k.get('alias')),
                  'FetchDataframeStep': lambda it, *a, **k: Obj('FetchDataframeStep', **k),
@@ -838,6 +837,27 @@ def cte_reference_route(ctx):
                                f'select FROM a CTE name must reach plan_select_identifier, which reads the CTE result; the outer CTE names are not known to the '
                                f'single-integration gate, so a gate consulted at inner levels takes the name for a table of the default integration', ps.lineno))
     return out
+
+
+def real_planner(ctx, integrations, models=(), default_namespace='mindsdb', predictor_namespace=None, **extra):
+    """a QueryPlanner stand-in whose catalog attributes are made by the real QueryPlanner.__init__ (interpreted, sa/interp.py) from a catalog given the way callers
+    give it - so the tables below do not depend on how the planner represents projects / databases / integrations internally.
+    models: [(name, project or None)]"""
+    from ..interp import Interp, Obj, Raised, Env
+    import copy as _copy
+    qp = class_named(ctx.src.tree(QP), 'QueryPlanner')
+    init = function_named(qp, '__init__')
+    ctx.need(init is not None, 'QueryPlanner.__init__ not found')
+    self_ = Obj('QueryPlanner')
+    meta = [dict({'name': n}, **({'integration_name': i} if i else {})) for n, i in models]
+    it = Interp.for_file(ctx.src, QP, {}, {'QueryPlan': lambda it_, *a, **k: Obj('QueryPlan', steps=[])})
+    try:
+        it.call_function(init, [self_], dict(query=None, integrations=_copy.deepcopy(list(integrations)), predictor_namespace=predictor_namespace,
+                                             predictor_metadata=meta, default_namespace=default_namespace), Env())
+    except Raised as r:
+        raise AnalysisError(f'QueryPlanner.__init__ raises {r.exc_name} on the catalog {integrations} / {models}')
+    self_.attrs.update(extra)
+    return self_
 
 
 def catalog_table(ctx):
@@ -918,8 +938,8 @@ def resolver_table(ctx):
         fn = function_named(c, meth) if c is not None else None
         ctx.need(fn is not None, f'resolver {key} not found')
         for parts, (default_ns, ints), with_alias in itertools.product(shapes, (('mindsdb', dbs), ('int2', dbs), (None, dbs), (None, ['int1'])), (False, True)):
-            planner = Obj('QueryPlanner', databases=list(dbs), default_namespace=default_ns, integrations={d: {} for d in ints}, projects=['mindsdb'],
-                          predictor_namespace='mindsdb')
+            planner = real_planner(ctx, [d for d in ints if d != 'mindsdb'], [], default_namespace=default_ns)
+            dbs_here = {d for d in ints if d != 'mindsdb'} | {'mindsdb'}
             self_ = planner if cls == 'QueryPlanner' else Obj(cls, planner=planner)
             alias = Obj('Identifier', parts=['al'], alias=None) if with_alias else None
             node = Obj('Identifier', parts=list(parts), alias=alias)
@@ -927,7 +947,7 @@ def resolver_table(ctx):
                      'Identifier': lambda it, *a, **k: Obj('Identifier', parts=list(k.get('parts') or (a[0] if a else [])), alias=k.get('alias')),
                      'TableInfo': lambda it, integration, table, aliases, **k: (integration, table)}
             it = Interp.for_file(ctx.src, file, {'Identifier': set()}, stubs, also=('mindsdb_sql/parser/ast/base.py', 'mindsdb_sql/parser/ast/select/identifier.py'))
-            qualified = len(parts) > 1 and parts[0].lower() in dbs
+            qualified = len(parts) > 1 and parts[0].lower() in dbs_here
             want_db = parts[0].lower() if qualified else default_ns
             want_parts = list(parts[1:]) if qualified else list(parts)
             label = f'{key}:{".".join(parts)}{" AS al" if with_alias else ""} (default namespace {default_ns}{", one integration" if len(ints) == 1 else ""})'
@@ -963,7 +983,7 @@ def join_fetch_table(ctx):
               ['sch', 't'], ['files', 'files']]
     out = []
     for parts, default_ns in itertools.product(shapes, ('int1', 'mindsdb')):
-        planner = Obj('QueryPlanner', databases=list(dbs), default_namespace=default_ns, integrations={d: {} for d in dbs}, projects=['mindsdb'], predictor_namespace='mindsdb')
+        planner = real_planner(ctx, [d for d in dbs if d != 'mindsdb'], [], default_namespace=default_ns)
         node = Obj('Identifier', parts=list(parts), alias=Obj('Identifier', parts=['al'], alias=None, parentheses=False), parentheses=False)
         captured = []
         stubs = C08.base_stubs()
@@ -1053,12 +1073,19 @@ def query_info_table(ctx):
         ('no CTE, FROM t (default namespace is a project)', [], [['t']], [['t']], set()),
         ('CTE a and B, FROM a, B, int1.c', ['a', 'B'], [['a'], ['B'], ['int1', 'c']], [], {'int1'}),
     ]
-    for label, ctes, refs, want_entities, want_ints in probes:
+    # the catalog as callers give it; in the second one the project of a model is ALSO listed among the data integrations (the planner's own tests do that):
+    # the name is a project all the same - its tables and models are MindsDB objects, never tables of an integration
+    catalogs = [('', ['int1', 'int2', {'name': 'proj', 'type': 'project'}], [('pred', 'proj')]),
+                (' [proj also listed as a data integration]', ['int1', 'int2', 'proj'], [('pred', 'proj')]),
+                (' [proj also listed as a data integration, record form]', [{'name': 'int1', 'type': 'data'}, {'name': 'int2', 'type': 'data'}, {'name': 'proj', 'type': 'data'}],
+                 [('pred', 'proj')])]
+    probes = [(label + cl, ctes, refs, want_entities, want_ints, cints, cmodels) for cl, cints, cmodels in catalogs for label, ctes, refs, want_entities, want_ints in probes]
+    probes += [('FROM proj.pred (a model)' + cl, [], [['proj', 'pred']], [['proj', 'pred']], set(), cints, cmodels) for cl, cints, cmodels in catalogs]
+    for label, ctes, refs, want_entities, want_ints, cints, cmodels in probes:
         nodes = [Obj('Identifier', parts=list(r), alias=None) for r in refs]
         query = Obj('Select', cte=[Obj('CommonTableExpression', columns=[], name=Obj('Identifier', parts=[c], alias=None), query=Obj('Select')) for c in ctes] or None,
                     _visits=[(n, dict(is_table=True, is_target=False, parent_query=None, callstack=[])) for n in nodes])
-        self_ = Obj('QueryPlanner', projects=['mindsdb', 'proj'], databases=['int1', 'int2', 'mindsdb', 'proj'], integrations={'int1': {}, 'int2': {}},
-                    default_namespace='mindsdb')
+        self_ = real_planner(ctx, cints, cmodels, default_namespace='mindsdb')
         stubs = {'query_traversal': traverse,
                  'self.is_predictor': lambda it, n: False,
                  'Identifier': lambda it, *a, **k: Obj('Identifier', parts=list(k.get('parts') or []), alias=k.get('alias')),
